@@ -85,14 +85,14 @@ def scn_minmax(comm, shape, nprocs, root=0):
     return out
 
 
-def scn_figblock(comm, shape, nprocs, root=0):
+def scn_figblock(comm, shape, nprocs, root=0, cplx=False):
     from pygyro.model.grid import Grid
     h, eta = sl.handler_job(comm, shape, nprocs, STD)
     out = []
     for name in STD:
-        g = Grid(eta, [None] * 4, h, name, comm)
+        g = Grid(eta, [None] * 4, h, name, comm, dtype=np.complex128 if cplx else float)
         lay = g.getLayout(name)
-        g.getAllData()[:] = sl.local_block(sl.tokens(shape), lay)
+        g.getAllData()[:] = sl.local_block(sl.tokens(shape, complex if cplx else float), lay)
         for d in ({0: 1}, {3: shape[3] - 1, 2: 0}, {1: range(1, 3)}, {}):
             r = g.getBlockFromDict(dict(d), comm, root)
             out.append(None if r is None else [int(x) for x in r[3][:4]])
@@ -109,14 +109,14 @@ def scn_setupsave(comm, given):
     return [a, b]
 
 
-def scn_setup(comm, cfile, layout, plot, folder=None):
+def scn_setup(comm, cfile, layout, plot, folder=None, draw=0):
     from pygyro.initialisation.setups import setupCylindricalGrid
     with warnings.catch_warnings():
         warnings.simplefilter("ignore")
         grid, constants, t = setupCylindricalGrid(layout=layout, constantFile=cfile, comm=comm, plotThread=plot,
-                                                  drawRank=0, allocateSaveMemory=True)
-        mn, mx = grid.getMin(0), grid.getMax(0)
-        m2 = grid.getMin(0, 0, 1)
+                                                  drawRank=draw, allocateSaveMemory=True)
+        mn, mx = grid.getMin(draw), grid.getMax(draw)
+        m2 = grid.getMin(draw, 0, 1)
         for l2 in ("flux_surface", "poloidal", "v_parallel"):
             grid.setLayout(l2)
         if folder is not None and not plot:
